@@ -100,7 +100,7 @@ def fam_binop(tier):
 def fam_unop(tier):
     for op in ("-", "not"):
         for a in TKEY:
-            for r in RES:
+            for r in RES + ["arr", "sarr"]:
                 yield ("unop %s %s -> %s" % (op, a, r), prog("    let r0: %s = (%s v%s)\n%s" % (TTEXT[r], op, a, use("r0", r))))
 
 
